@@ -73,6 +73,7 @@ type Contract struct {
 	Ghost       []string
 	Hints       []*Clause
 	Reveal      []string
+	Guards      []*Clause
 }
 
 type ContractSet struct {
@@ -87,7 +88,7 @@ var directiveRe = regexp.MustCompile(`^([a-z-]+)(\[[A-Za-z0-9_.:-]+\])?(\s+|$)`)
 var knownDirectives = map[string]bool{"func": true, "extern": true, "property": true, "requires": true, "ensures": true,
 	"modifies": true, "loop": true, "spec": true, "nooverflow": true, "nopanic": true, "inline": true, "assume": true, "pure": true,
 	"noreturn": true, "nilrecv": true, "lemma": true, "var": true, "assumes": true, "shows": true, "uses": true, "iface": true,
-	"bounded": true, "note": true, "ghost": true, "hint": true, "package": true, "opaque": true, "reveal": true}
+	"bounded": true, "note": true, "ghost": true, "hint": true, "package": true, "opaque": true, "reveal": true, "guard": true}
 
 // loadContracts parses every zz_verif_contracts.go below root/src.
 func loadContracts(root string) (*ContractSet, error) {
@@ -294,6 +295,17 @@ func (cs *ContractSet) parseFile(path, pkg string) error {
 			cur.Bounded = d.text
 		case "ghost":
 			cur.Ghost = append(cur.Ghost, strings.Fields(d.text)...)
+		case "guard":
+			// guard[callee] expr: an obligation at every call of `callee` inside this function
+			// (guard dominance: the call happens only where expr holds); expr may name locals
+			n, err := parseSpec(d.text)
+			if err != nil {
+				return perr(d, err)
+			}
+			if d.name == "" {
+				return perr(d, fmt.Errorf("guard needs the callee name: guard[name] expr"))
+			}
+			cur.Guards = append(cur.Guards, &Clause{Name: d.name, Expr: n, Src: d.text})
 		case "reveal":
 			cur.Reveal = append(cur.Reveal, strings.Fields(d.text)...)
 		case "hint":
